@@ -1,6 +1,8 @@
 import AdfObdd.Stable
 import AdfObdd.PreGround3
 import AdfObdd.AdfModel
+import AdfObdd.StableExact
+import AdfObdd.OpsProofs
 /-! # C03 — enumerate-and-check stable semantics
 
 The code's test for a two-valued candidate `v`: restrict every condition by `v`'s false statements
@@ -23,7 +25,9 @@ theorem pregrounded_same_reduct_lfp (D : List BoolFn) (g v L : I3) (hg : IsLfp D
 model passes "is a two-valued model", so the pre-filter rejects no stable model) -/
 theorem reduct_agrees_on_total (D : List BoolFn) (v : I3) : Gam (redu D v) v = Gam D v := Gam_redu_total D v
 
-/-- full statement about the concrete `stableAll`, kept visible (composition with C20 and C01) -/
+/-- full statement about the concrete `stableAll` (the function the driver runs): read as
+interpretations the answers contain no duplicate and are exactly the stable models — total, a
+model, and every true statement is true in the least fixpoint of the reduct -/
 def stable_exact_statement : Prop :=
   ∀ (s : Store) (n : Nat) (ac : List Nat), WF s → ac.length = n → (∀ t ∈ ac, t < s.nodes.size) →
     let D := ac.map (eval s)
@@ -32,9 +36,96 @@ def stable_exact_statement : Prop :=
       (v.length = n ∧ TotalI v ∧ Gam D v = v ∧
         ∀ w : I3, IsLfp (redu D v) w → ∀ i : Nat, v[i]? = some (some true) → w[i]? = some (some true))
 
+/-- the same statement for any enumeration function (used for `stable_with_prefilter`) -/
+def stable_exact_for (f : Store → Nat → List Nat → Store × List (List Nat)) : Prop :=
+  ∀ (s : Store) (n : Nat) (ac : List Nat), WF s → ac.length = n → (∀ t ∈ ac, t < s.nodes.size) →
+    let D := ac.map (eval s)
+    let out := (f s n ac).2.map (fun v => v.map storeIsConst)
+    out.Nodup ∧ ∀ v : I3, v ∈ out ↔
+      (v.length = n ∧ TotalI v ∧ Gam D v = v ∧
+        ∀ w : I3, IsLfp (redu D v) w → ∀ i : Nat, v[i]? = some (some true) → w[i]? = some (some true))
+
+/-- `restrictFalse` / `mapFalse` compute the reduct: well-formedness kept, the store only extended,
+the new handles denote the conditions with the candidate's false statements replaced by ⊥ -/
+theorem mapFalse_is_reduct (s : Store) (cand ac : List Nat) (hw : WF s) (hv : ∀ t ∈ ac, t < s.nodes.size) :
+    WF (mapFalse s cand ac).1 ∧ Ext s (mapFalse s cand ac).1 ∧
+    (∀ t ∈ (mapFalse s cand ac).2, t < (mapFalse s cand ac).1.nodes.size) ∧
+    (mapFalse s cand ac).2.map (eval (mapFalse s cand ac).1) =
+      redu (ac.map (eval s)) (cand.map storeIsConst) :=
+  StableExact.mapFalse_spec cand ac s hw hv
+
+/-- the code's test on one total candidate, started in any well-formed store, decides the
+definition (reduct by `mapFalse`, its least fixpoint by `groundedLoop`, comparison at all positions) -/
+theorem test_decides_stability (s : Store) (n : Nat) (ac cand : List Nat) (hw : WF s) (hn : ac.length = n)
+    (hv : ∀ t ∈ ac, t < s.nodes.size) (hcl : cand.length = n)
+    (hct : ∀ i, i < cand.length → cand.getD i 0 < 2) :
+    let red := mapFalse s cand ac
+    let grd := groundedLoop StoreRA (n + 1) red.1 red.2
+    WF grd.1 ∧ Ext s grd.1 ∧
+    ((cand.zip grd.2).all (fun (a, b) => sameInfo a b) = true ↔
+      StableExact.StableI (ac.map (eval s)) (cand.map storeIsConst)) :=
+  StableExact.stable_test_spec s n ac cand hw hn hv hcl hct
+
+/-- proved: the loop of `Adf::stable` is the filter of C20's two-valued enumeration of the grounded
+vector by the definition; completeness because every stable model is a total fixpoint, hence above
+the grounded interpretation (C01), hence the decided part of a completion of the grounded vector -/
+theorem stable_exact : stable_exact_statement := by
+  intro s n ac hw hn hv
+  have ⟨_, e⟩ := StableExact.stableAll_filter s n ac hw hn hv
+  have := StableExact.answers_exact s n ac hw hn hv _ (StableExact.verdict_iff (ac.map (eval s)))
+  simp only [e]
+  exact this
+
+/-- proved: `stable_with_prefilter` gives the same answers in the same order — the pre-filter
+("is a two-valued model", the filter of C02 on the candidate) rejects no stable model -/
+theorem stablepre_exact : stable_exact_for Cli.stablePre := by
+  intro s n ac hw hn hv
+  have ⟨_, e⟩ := StableExact.stablePre_filter s n ac hw hn hv
+  have := StableExact.answers_exact s n ac hw hn hv _ (StableExact.verdict_iff (ac.map (eval s)))
+  simp only [e]
+  exact this
+
+/-- the two variants emit the same list (same vectors, same order) -/
+theorem stablepre_same_answers (s : Store) (n : Nat) (ac : List Nat) (hw : WF s) (hn : ac.length = n)
+    (hv : ∀ t ∈ ac, t < s.nodes.size) : (Cli.stablePre s n ac).2 = (stableAll s n ac).2 := by
+  rw [(StableExact.stablePre_filter s n ac hw hn hv).2, (StableExact.stableAll_filter s n ac hw hn hv).2]
+
+/-- both loops only extend the store and keep it well formed -/
+theorem stable_store (s : Store) (n : Nat) (ac : List Nat) (hw : WF s) (hn : ac.length = n)
+    (hv : ∀ t ∈ ac, t < s.nodes.size) :
+    (WF (stableAll s n ac).1 ∧ Ext s (stableAll s n ac).1) ∧
+    (WF (Cli.stablePre s n ac).1 ∧ Ext s (Cli.stablePre s n ac).1) :=
+  ⟨(StableExact.stableAll_filter s n ac hw hn hv).1, (StableExact.stablePre_filter s n ac hw hn hv).1⟩
+
 example : TotalI [some true, some false] := by
   intro i hi
   have : i = 0 ∨ i = 1 := by simp at hi; omega
   rcases this with h | h <;> subst h <;> simp
+
+/-! non-vacuity: the hypotheses of `stable_exact` are satisfiable and its conclusion is neither
+always true nor always false — one statement with condition ⊤ on the initial store: `T` is an
+answer, `F` is not -/
+example : [some true] ∈ (stableAll Store.init 1 [1]).2.map (fun v => v.map storeIsConst) := by
+  refine ((stable_exact Store.init 1 [1] WF_init rfl (by simp [Store.init])).2 [some true]).mpr
+    ⟨rfl, ?_, by simp [Gam, constOf_some, eval_one], ?_⟩
+  · intro i hi
+    have : i = 0 := by simp at hi; omega
+    subst this; exact ⟨true, rfl⟩
+  · intro w hw i hi
+    have h0 : i = 0 := by
+      rcases Nat.lt_or_ge i 1 with h | h
+      · omega
+      · rw [List.getElem?_eq_none (by simpa using h)] at hi; cases hi
+    subst h0
+    have e : Gam (redu (List.map (eval Store.init) [1]) [some true]) w = [some true] := by
+      simp [Gam, redu, constOf_some, eval_one]
+    rw [← hw.1, e]; rfl
+
+example : [some false] ∉ (stableAll Store.init 1 [1]).2.map (fun v => v.map storeIsConst) := by
+  intro h
+  have := (((stable_exact Store.init 1 [1] WF_init rfl (by simp [Store.init])).2 [some false]).mp h).2.2.1
+  have e : Gam (List.map (eval Store.init) [1]) [some false] = [some true] := by
+    simp [Gam, constOf_some, eval_one]
+  rw [e] at this; cases this
 
 end C03
